@@ -33,6 +33,7 @@ Failed(e) ==
   \cup (IF wasFixpoint /\ ~(e.t.A = e.s.A /\ e.t.B = e.s.B /\ e.t.E = e.s.E /\ e.nplan = 0 /\ e.exit = 0) THEN {"C06"} ELSE {})
   \cup (IF ~e.swap_ok \/ ~e.mtime_ok THEN {"C06"} ELSE {})
   \cup (IF ~e.s.tr /\ ~NoBaseNoDeleteEdge(a, b, r) THEN {"C07"} ELSE {})
+  \cup (IF ~e.dry_unchanged THEN {"C15"} ELSE {})       \* a dry run taken just before this run (fault edges) changed something
 
 Conform(e) ==
   LET r == RunResult(T(e.s.A), T(e.s.B), e.s.tr, T(e.s.E)) IN
